@@ -710,6 +710,74 @@ func freshAnnouncerScenario(nWaiting int) func() func() []string {
 	}
 }
 
+// stallProc: a processor whose first call takes `stall` of virtual time.
+type stallProc struct {
+	txProc
+	stall time.Duration
+	calls int
+}
+
+func (p *stallProc) ProcessTx(ctx context.Context, tx *wire.MsgTx) (bool, error) {
+	p.calls++
+	if p.calls == 1 {
+		vsched.Sleep(p.stall)
+	}
+	return p.txProc.ProcessTx(ctx, tx)
+}
+
+// backPressureScenario: the consumer is running and its processor stalls for 11 s on the first
+// transaction while one peer delivers n announced transactions (the manager's hand-over channel
+// holds 1000): the deliveries that do not fit wait; once the processor goes on every one of them
+// reaches it exactly once and none is requested again.
+func backPressureScenario(n int) func() func() []string {
+	return func() func() []string {
+		txm := bitcoin_reader.NewTxManager(txTimeout)
+		proc := &stallProc{stall: 11 * time.Second}
+		txm.SetTxProcessor(proc)
+		txm.SetTxSaver(proc)
+		interrupt := make(chan interface{})
+		peer, other := uuid.New(), uuid.New()
+		txs := make([]*wire.MsgTx, n)
+		for i := range txs {
+			txs[i] = mkTx(10000 + i)
+		}
+		done := false
+		vsched.GoNamed("consumer", func() { txm.Run(bg) })
+		vsched.GoNamed("peer", func() {
+			for _, tx := range txs {
+				txm.AddTxID(bg, peer, *tx.TxHash())
+				txm.AddTx(bg, interrupt, peer, tx)
+			}
+			done = true
+			vsched.Sleep(time.Minute)
+			txm.Stop(bg)
+		})
+		return func() []string {
+			var problems []string
+			if !done {
+				problems = append(problems, "delivery-blocked: the peer's deliveries did not all return")
+			}
+			count := map[bitcoin.Hash32]int{}
+			for _, id := range proc.processed {
+				count[id]++
+			}
+			bad := 0
+			for i, tx := range txs {
+				if c := count[*tx.TxHash()]; c != 1 && bad < 3 {
+					bad++
+					problems = append(problems, fmt.Sprintf("processed-count: delivered transaction %d of %d reached the processor %d times while the processor had stalled for 11 s (hand-over channel of 1000)", i, n, c))
+				}
+				if again, _ := txm.AddTxID(bg, other, *tx.TxHash()); again && bad < 3 {
+					bad++
+					problems = append(problems, fmt.Sprintf("requested-after-delivery: delivered transaction %d is to be requested again", i))
+				}
+			}
+			label(fmt.Sprintf("n=%d processed=%d ok=%t", n, len(proc.processed), len(problems) == 0))
+			return problems
+		}
+	}
+}
+
 func c06Scenarios(thorough bool) []*scenario {
 	var r []*scenario
 	scripts := [][]string{{"A0"}, {"D0"}, {"A0", "D0"}, {"D0", "A0"}, {"A0", "A0"}, {"D0", "D0"}}
@@ -781,6 +849,8 @@ func c06Scenarios(thorough bool) []*scenario {
 	for mask := 0; mask < 8; mask++ {
 		r = append(r, &scenario{name: fmt.Sprintf("nodemanager/retry-poll/stopping-%03b", mask), bounds: []int{0}, body: mgrPollScenario(mask), steps: 20000000})
 	}
+	r = append(r, &scenario{name: "txmanager/back-pressure/1010-deliveries-behind-a-stalled-processor", bounds: []int{0}, body: backPressureScenario(1010), steps: 2000000,
+		note: "one canonical schedule apart from the blocking points (vsched.Quiet is not used; the scenario has two threads and the explored choices are who runs when one blocks)"})
 	for _, n := range []int{1, 2} {
 		r = append(r, &scenario{name: fmt.Sprintf("nodemanager/retry-poll/%d-node-left", n), bounds: []int{0}, body: mgrFewNodesScenario(n), steps: 2000000})
 	}
